@@ -10,7 +10,16 @@ open Rpylib Rpylib.Triplet
        | direct hemprefix <r> <d> <lam> <p> <eta1> <eta2>   -> process_drift of the direct simulation
   hemkappa <lam> <p> <eta1> <eta2> <x>                -> levy_exponent_pure_jump(x) of HEM
   tripleta hem <lam> <p> <eta1> <eta2> | tripleta merton <lam> <mu_j>   -> triplet drift as constructed
-  ctmc <modelDrift> <aTilde> <muTilde> <muH>          -> chain drift -/
+  ctmc <modelDrift> <aTilde> <muTilde> <muH>          -> chain drift
+  hemcgf <a> <sigma> <lam> <p> <eta1> <eta2> <s>      -> levy_exponent(-i s) of HEM (a s + (s sigma)^2/2 + kappa(s))
+  cgf <a> <sigma> <s> <kappa>                         -> levy_exponent(-i s) from the pure-jump value kappa
+  mertonarg <mu_j> <sigma_j> <x>                      -> the argument of exp in Merton's levy_exponent_pure_jump(x)
+  hemkappac <lam> <p> <eta1> <eta2> <x> <y>           -> `<re> <im>` of levy_exponent_pure_jump(x + i y) of HEM
+  mertonargc <mu_j> <sigma_j> <x> <y>                 -> `<re> <im>` of the argument of exp at x + i y
+  levyexp hem <a> <sigma> <lam> <p> <eta1> <eta2> <u> <v>  -> `<re> <im>` of levy_exponent(u + i v) of HEM
+  levyexpof <a> <sigma> <u> <v> <kre> <kim>           -> `<re> <im>` of levy_exponent(u + i v) from kappa(i w) = kre + i kim
+  cum hem <k> <drift> <sigma> <lam> <p> <eta1> <eta2> <t> | cum merton <k> <drift> <sigma> <lam> <mu_j> <sigma_j> <t>
+       | cum bs <k> <drift> <sigma> <t>               -> cumulant<k>(t), k in 1, 2, 4, 6 (bs: 1..6) -/
 def repOf : Nat → Option Rep
   | 1 => some .zero | 2 => some .center | 3 => some .oneone | 4 => some .tilde | _ => none
 
@@ -72,6 +81,69 @@ def step (t : List String) : String :=
     match rats rest with
     | some [md, at', mt, mh] => showRat (ctmcDrift md at' mt mh)
     | _ => "bad-op"
+  | "hemcgf" :: rest =>
+    match rats rest with
+    | some [a, sg, lam, p, e1, e2, x] => if e1 - x = 0 ∨ e2 + x = 0 then "div0" else showRat (hemCgf a sg lam p e1 e2 x)
+    | _ => "bad-op"
+  | "cgf" :: rest =>
+    match rats rest with
+    | some [a, sg, x, k] => showRat (cgfOf a sg x k)
+    | _ => "bad-op"
+  | "mertonarg" :: rest =>
+    match rats rest with
+    | some [mu, sj, x] => showRat (mertonKappaArg mu sj x)
+    | _ => "bad-op"
+  | "hemkappac" :: rest =>
+    match rats rest with
+    | some [lam, p, e1, e2, x, y] =>
+      if (e1 - x) * (e1 - x) + y * y = 0 ∨ (e2 + x) * (e2 + x) + y * y = 0 then "div0"
+      else showRat (hemKappaRe lam p e1 e2 x y) ++ " " ++ showRat (hemKappaIm lam p e1 e2 x y)
+    | _ => "bad-op"
+  | "mertonargc" :: rest =>
+    match rats rest with
+    | some [mu, sj, x, y] => showRat (mertonArgRe mu sj x y) ++ " " ++ showRat (mertonArgIm mu sj x y)
+    | _ => "bad-op"
+  | "levyexp" :: "hem" :: rest =>
+    match rats rest with
+    | some [a, sg, lam, p, e1, e2, u, v] =>
+      if (e1 + v) * (e1 + v) + u * u = 0 ∨ (e2 - v) * (e2 - v) + u * u = 0 then "div0"
+      else showRat (levyExpRe a sg u v (hemKappaRe lam p e1 e2 (-v) u)) ++ " "
+        ++ showRat (levyExpIm a sg u v (hemKappaIm lam p e1 e2 (-v) u))
+    | _ => "bad-op"
+  | "levyexpof" :: rest =>
+    match rats rest with
+    | some [a, sg, u, v, kre, kim] => showRat (levyExpRe a sg u v kre) ++ " " ++ showRat (levyExpIm a sg u v kim)
+    | _ => "bad-op"
+  | "cum" :: "hem" :: k :: rest =>
+    match parseNat? k, rats rest with
+    | some k, some [dr, sg, lam, p, e1, e2, t] =>
+      if e1 = 0 ∨ e2 = 0 then "div0" else
+      match k with
+      | 1 => showRat (hemCumulant1 dr lam p e1 e2 t)
+      | 2 => showRat (hemCumulant2 sg lam p e1 e2 t)
+      | 4 => showRat (hemCumulant4 lam p e1 e2 t)
+      | 6 => showRat (hemCumulant6 lam p e1 e2 t)
+      | _ => "bad-op"
+    | _, _ => "bad-op"
+  | "cum" :: "merton" :: k :: rest =>
+    match parseNat? k, rats rest with
+    | some k, some [dr, sg, lam, mu, sj, t] =>
+      match k with
+      | 1 => showRat (mertonCumulant1 dr lam mu t)
+      | 2 => showRat (mertonCumulant2 sg lam mu sj t)
+      | 4 => showRat (mertonCumulant4 lam mu sj t)
+      | 6 => showRat (mertonCumulant6 lam mu sj t)
+      | _ => "bad-op"
+    | _, _ => "bad-op"
+  | "cum" :: "bs" :: k :: rest =>
+    match parseNat? k, rats rest with
+    | some k, some [dr, sg, t] =>
+      match k with
+      | 1 => showRat (bsCumulant1 dr t)
+      | 2 => showRat (bsCumulant2 sg t)
+      | 3 => "0" | 4 => "0" | 5 => "0" | 6 => "0"
+      | _ => "bad-op"
+    | _, _ => "bad-op"
   | _ => "bad-op"
 
 def main : IO Unit := runStateless step
